@@ -9,6 +9,7 @@
 import Driver.WorldDom
 import Driver.DispatchDom
 import Driver.DeriveDom
+import Driver.SaveLoadDom
 import Std.Data.HashSet
 import Std.Data.HashMap
 open SpecsModel SpecsModel.Driver
@@ -209,4 +210,5 @@ def main : IO Unit := do
     IO.println s!"STATS cases={st.cases} lines={st.lines} diffs={st.diffs} mons={st.mons} reuses={st.reuses} err_kills={st.errKills} dead_access={st.deadAccess} nested={st.nested} events={st.eventsSeen} destroyed={st.destroyedSeen} distinct={st.distinct.size} distinct_nontrivial={st.distinctNontrivial} {kindStr}"
   | ["domain", "dispatch"] => runDispatch stdin
   | ["domain", "derive"] => runDerive stdin
+  | ["domain", "saveload"] => runSaveLoad stdin
   | _ => IO.println s!"BAD unknown domain line: {first}"
